@@ -9,6 +9,7 @@
   and the closed form of the box list after a general move (`interchange_move_spec`).
 -/
 import Proofs.Move
+import Proofs.Foliate
 
 namespace DV.C05
 open DV
@@ -75,6 +76,19 @@ theorem interchange_move_spec (d d' : Diagram) (i j : Int) (left : Bool) (hd : d
     (j < i ∧ ∃ L M R a, d.boxes = L ++ M ++ a :: R ∧ (L.length : Int) = j ∧
         (M.length : Int) = i - j ∧ d'.boxes = L ++ a :: (M ++ R)) :=
   Diagram.interchange_boxes hd h
+
+/-- All sequences of interchanges: anything reached by interchanges (`IReach`) is well-typed, has
+    the same type and boxes, and denotes the same morphism under every monoidal functor. -/
+theorem interchange_sequences {O M : Type} (C : SMC O M) (F : MFunctor C) (d d' : Diagram)
+    (hd : d.WF) (h : IReach d d') :
+    (d'.WF ∧ d'.dom = d.dom ∧ d'.cod = d.cod ∧ d'.boxes.Perm d.boxes) ∧ F.eval d' = F.eval d :=
+  ⟨h.wf hd, h.sound F hd⟩
+
+/-- `foliate` only ever moves boxes by interchanges: every yielded step denotes the input. -/
+theorem foliate_sound {O M : Type} (C : SMC O M) (F : MFunctor C) (d : Diagram)
+    (steps slices : List Diagram) (hd : d.WF) (h : d.foliate = .ok (steps, slices)) :
+    ∀ s ∈ steps, F.eval s = F.eval d :=
+  fun s hs => ((Diagram.foliate_reach hd h).1 s hs).sound F hd
 
 /-! Non-vacuity -/
 private def x : Ob := ⟨"x", 0⟩
